@@ -1,7 +1,7 @@
 SPECIFICATION Spec
 CONSTANTS
   Keys = {"a1", "xb", "mid", "zz", "$$s", "$$token", "$$user_u1", "$$permission_$u1"}
-  PermNames = {"r_a", "rw_a_i_b", "x_mid", "rwix_all", "rr_a_ww_mid", "rwr_a_ii_b", "ro_all"}
+  PermNames = {"r_a", "rw_a_i_b", "x_mid", "rwix_all", "rr_a_ww_mid", "rwr_a_ii_b"}
   MaxLen = 7
 INVARIANT TypeOK
 VIEW View
